@@ -41,7 +41,7 @@ def limit_us(limit):
 
 
 def session_run(text, argv, history, faults=None, solve_us=10000):
-    """history: list of ['solve', limit, idle_before_us] | [getter name].
+    """history: list of ['solve', limit, idle_before_us (, threads)] | [getter name].
     faults: {solve_op_index: {k: fault}} fault plan per solve operation (by order of the solve ops).
     Returns dict(t0, ops=[...], exc_init)."""
     import matchingproblems.solver.solver as solver_mod
@@ -83,7 +83,7 @@ def session_run(text, argv, history, faults=None, solve_us=10000):
                             plan2[k if k == 'from' else int(k)] = v
                     with recorder.recording(s, faults=plan2, on_solve=on_solve) as rec:
                         try:
-                            s.solve(msg=False, timeLimit=limit, threads=None, write=False)
+                            s.solve(msg=False, timeLimit=limit, threads=(h[3] if len(h) > 3 else None), write=False)
                             seen = ['ok', '']
                         except BaseException as e:  # noqa
                             if isinstance(e, KeyboardInterrupt):
